@@ -497,6 +497,54 @@ example :
     (recv (fun _ => true) envW c3n (req 1 0)).1.sess.nextOut = 4 := by
   decide +kernel
 
+/-! #### magnitudes: the counter has passed 999999 and EndSeqNo is exactly 999999
+
+`resend_full` has no special numbers: EndSeqNo = 999999 (the "infinity" of FIX 4.0 / 4.1) is a bound like
+any other once more than a million messages were sent. -/
+
+def J1M : Rows := [app 999998, app 999999, app 1000000, app 1000001]
+def c1M : Conn := conn 1000002 J1M
+
+theorem outInv1M : OutInv c1M where
+  sorted := by simp [c1M, conn, J1M, Rows.Sorted, app, row]
+  lt := by
+    intro p hp
+    simp [c1M, conn, J1M, app, row] at hp
+    rcases hp with h|h|h|h <;> subst h <;> decide
+  rows := by
+    intro p hp
+    simp only [c1M, conn, J1M, List.mem_cons, List.not_mem_nil, or_false] at hp
+    rcases hp with h|h|h|h <;> subst h <;>
+      exact rowOK_row _ _ _ (by decide) (by decide) (by decide +kernel) (by decide +kernel)
+  stored := by decide
+
+theorem hyp1M (b e : Int) (hb : 0 ≤ b) (he : 0 ≤ e) : Hyp envW c1M (req b e) b e where
+  state := Or.inl rfl
+  sock := rfl
+  lsender := by decide
+  ltarget := by decide
+  lstamp := by decide
+  inv := outInv1M
+  envelope := envelope_req _ _ _ _
+  req := req_req b e hb he
+  fits := by decide
+
+example : Served (fun _ => true) envW c1M (req 999998 999999) 999998 999999 := by
+  have := resend_full (fun _ => true) envW c1M (req 999998 999999) 999998 999999
+    (hyp1M _ _ (by decide) (by decide))
+  rw [if_pos (by decide)] at this
+  exact this
+
+example :
+    (writes (recv (fun _ => true) envW c1M (req 999998 999999)).2).map
+      (fun g => (g.mtype, g.get? tMsgSeqNum, g.get? tPossDupFlag)) =
+      [("D", some "999998", some "Y"), ("D", some "999999", some "Y")] ∧
+    (recv (fun _ => true) envW c1M (req 999998 999999)).1.journal.out.find 1000000 =
+      c1M.journal.out.find 1000000 ∧
+    (recv (fun _ => true) envW c1M (req 999998 999999)).1.journal.out.find 1000001 =
+      c1M.journal.out.find 1000001 := by
+  decide +kernel
+
 end NonVacuity
 
 end AsyncFix.Session.C06
